@@ -137,6 +137,11 @@ def bisect(ctx, rep):
                 op = type(c.ops[0]).__name__
                 red = c._parent._parent if isinstance(c._parent, ast.Attribute) else None
                 redname = c._parent.attr if isinstance(c._parent, ast.Attribute) else None
+                if redname in ('all', 'any') and not (isinstance(red, ast.Call) and red.func is c._parent):
+                    rep.bad('D1.pre', fn, s, f'`{short(s.test, 50)}` tests the bound method `.{redname}` itself (it is never called): the condition is always true and this end of the bracket is '
+                            'not checked', construct=f'precondition on {al_[c.left.args[0].id]}')
+                    pre[al_[c.left.args[0].id]] = (op, s, 'vacuous', neg)
+                    continue
                 if neg:
                     op = {'Gt': 'LtE', 'Lt': 'GtE', 'GtE': 'Lt', 'LtE': 'Gt'}.get(op, op)
                     # not (x <= 0).all()  raises when ANY lane violates: required = all lanes satisfy the original test
